@@ -44,3 +44,8 @@ CORPUS = [
     Mut('c03-scalers-escape-the-pattern-weights', 'torchtree/evolution/tree_likelihood.py', '', "    return torch.sum(\n        (\n            torch.log(freqs @ torch.sum(props * partials[post_indexing[-1][0]], dim=-3))\n            + torch.cat(scalers, -2).log().sum(dim=-2).unsqueeze(-2)\n        )\n        * weights,\n        dim=-1,\n    )\n", "    site_log_p = torch.log(freqs @ torch.sum(props * partials[post_indexing[-1][0]], dim=-3))\n    log_scalers = torch.cat(scalers, -2).log().sum(dim=-2).unsqueeze(-2)\n    return torch.sum(site_log_p * weights + log_scalers, dim=-1)\n", expect=[('C03.P', 'log-scalers-added-inside-weighted-sum')], mode='text', nth=1),
     Mut('c03-benign-return-through-locals', 'torchtree/evolution/tree_likelihood.py', '', "    return torch.sum(\n        (\n            torch.log(freqs @ torch.sum(props * partials[post_indexing[-1][0]], dim=-3))\n            + torch.cat(scalers, -2).log().sum(dim=-2).unsqueeze(-2)\n        )\n        * weights,\n        dim=-1,\n    )\n", "    site_log_p = torch.log(freqs @ torch.sum(props * partials[post_indexing[-1][0]], dim=-3))\n    log_scalers = torch.cat(scalers, -2).log().sum(dim=-2).unsqueeze(-2)\n    return torch.sum((site_log_p + log_scalers) * weights, dim=-1)\n", benign=True, mode='text', nth=1),
 ]
+CORPUS += [
+    Mut('c03-plain-kernel-never-returns-minus-infinity', 'torchtree/evolution/tree_likelihood.py', 'calculate_treelikelihood_discrete', 'return torch.sum(…',
+        'site_likelihoods = freqs @ torch.sum(props * partials[post_indexing[-1][0]], -3)\nreturn torch.sum(torch.log(site_likelihoods + 1e-300) * weights, -1)',
+        expect=[('C03.G', 'calculate_treelikelihood_discrete::underflow-surfaces-as-minus-infinity')]),
+]
